@@ -10,7 +10,7 @@ From ClapModel Require Import ParseProofs.Actions ParseProofs.Unparse ParseProof
 From ClapModel Require Import Base.Utf8 Lex.OsStrExtModel Lex.OsStrExtProofs ParseProofs.UnparseLift.
 From ClapModel Require Import ParseProofs.UnparseX ParseProofs.UnparseXProofs ParseProofs.UnparseXTree ParseProofs.UnparseXExamples.
 From ClapModel Require Import ParseProofs.Globals ParseProofs.UnparseGlobals ParseProofs.Spelling ParseProofs.UnparsePending ParseProofs.UnparseBridge.
-From ClapModel Require Import ParseProofs.Escape ParseProofs.UnparseXTrail ParseProofs.UnparseYTree ParseProofs.UnparseYExamples ParseProofs.UnparseUser ParseProofs.LoopStep ParseProofs.UnparsePendingLoop ParseProofs.UnparseXLook ParseProofs.UnparseUserTree.
+From ClapModel Require Import ParseProofs.Escape ParseProofs.UnparseXTrail ParseProofs.UnparseYTree ParseProofs.UnparseYExamples ParseProofs.UnparseUser ParseProofs.LoopStep ParseProofs.UnparsePendingLoop ParseProofs.UnparseXLook ParseProofs.UnparseUserTree ParseProofs.UnparseUserTreeX.
 From Coq Require Import ZArith Sorting.Sorted Sorting.Permutation List.
 Import ListNotations.
 Open Scope N_scope.
@@ -1056,3 +1056,31 @@ Theorem C02_bridge_tree_nonvacuous :
   user_tree 1 UnparseEx.t0 = false.
 Proof. exact user_tree_examples. Qed.
 Print Assumptions C02_bridge_tree_nonvacuous.
+
+(** ... and for trees of the LIFTED class (ParseProofs/UnparseUserTreeX.v): [user_treex] = at every node [user_conventionalx], no
+    [ignore_errors], no [Built] mark in the global settings, no subcommand named or aliased [help]; [C02_child_is_propagated]: the
+    child the parser builds for a subcommand token IS [build_self] of the declared child after propagation ([prop_child]) with
+    its binary and display names set ([named_sub]). *)
+Theorem C02_child_is_propagated : forall c0 scn sc0 scb, s_built (c_set c0) = false -> no_help_sub c0 = true ->
+  (beq scn s_help && negb (is_set s_disable_help_sub (build_self c0))) = false ->
+  find_subcommand (build_self c0) scn = Some sc0 -> build_subcommand (build_self c0) (c_name sc0) = Some scb ->
+  exists s0, In s0 (c_subs c0) /\ scb = build_self (named_sub (build_self c0) (prop_child c0 s0)).
+Proof. exact child_is_prop. Qed.
+Print Assumptions C02_child_is_propagated.
+
+Theorem C02_bridge_tree_y : forall i k c0 f, user_treex k c0 = true -> valid_tree (S f) (build_self c0) = true ->
+  wfy_tree_body (build_self c0) i = true -> wfy_inv (build_self c0) i = true.
+Proof. exact wfy_inv_of_user_tree. Qed.
+Print Assumptions C02_bridge_tree_y.
+
+Theorem C02_unparse_user_tree_y : forall c0 bin i k, is_set s_no_binary_name c0 = false -> valid (with_bin c0 bin) = true ->
+  user_treex k c0 = true -> wfy_tree_body (build_self (with_bin c0 bin)) i = true ->
+  parse_top c0 (bin :: render_invy i) = finish_outcome (with_bin c0 bin) (run_invy (build_self (with_bin c0 bin)) i).
+Proof. exact parse_top_user_tree_y. Qed.
+Print Assumptions C02_unparse_user_tree_y.
+
+Theorem C02_bridge_tree_y_nonvacuous :
+  user_treex 3 XEx.c0 = true /\ wfy_tree_body (build_self (with_bin XEx.c0 XEx.bin)) (of_inv XEx.xinv) = true /\
+  user_tree 3 XEx.c0 = false.
+Proof. exact user_treex_examples. Qed.
+Print Assumptions C02_bridge_tree_y_nonvacuous.
